@@ -253,7 +253,7 @@ func Raftkvs(c RaftCfg) *mpexec.System {
 	}
 	for k, a := range archs {
 		for i := 1; i <= N; i++ {
-			s.Procs = append(s.Procs, &mpexec.Proc{Group: a.group, Self: num(k*N + i), Arch: a.a, Locals: a.locals, Config: serverCfg(i)})
+			s.Procs = append(s.Procs, &mpexec.Proc{Group: a.group, Node: i, Self: num(k*N + i), Arch: a.a, Locals: a.locals, Config: serverCfg(i)})
 		}
 	}
 	for i := 1; i <= nCrash; i++ {
